@@ -55,7 +55,8 @@ def plan(tier, seed):
                       sseed=int(rng.integers(1 << 30)))
     for i in range(40 if quick else 600):
         P.add("slr", kind=pick(rng, ["gauss", "window", "sparse"]),
-              n=int(pick(rng, [4, 8, 16, 33, 64, 100])), peak=float(rng.uniform(0.1, 0.98)),
+              n=int(pick(rng, [4, 8, 16, 33, 64, 100])),
+              peak=float(rng.uniform(0.1, 0.98)) if i % 3 else float(10 ** rng.uniform(-8, -1)),
               sseed=int(rng.integers(1 << 30)))
     return P.cases
 
@@ -244,6 +245,42 @@ def run_sim(case):
             return violated(sig, "%s: simulating the two halves and composing their rotations "
                             "differs from simulating the whole waveform by %.3g (split at %d "
                             "of %d)" % (sim, e, k, nt), wit, mech="composition:" + sim, obs=obs)
+        # an RF gap (delay / rewinder lobe) with the gradient still on: the trailing part of
+        # the waveform is exactly zero, so the second piece is an all-zero pulse whose rotation
+        # is the pure gradient phase, not the identity
+        rfz = np.array(rf, copy=True)
+        if sim == "abrm_ptx":
+            rfz[:, k:] = 0
+            whole = simulate(sim, rfz, x, g, extra)
+            gap = simulate(sim, rfz[:, k:], x, g[k:], extra)
+        elif sim == "abrm":
+            rfz[k:] = 0
+            whole = simulate(sim, rfz, x, None)
+            gap = simulate(sim, rfz[k:], x * (nt - k) / nt, None)
+        else:
+            rfz[k:] = 0
+            whole = simulate(sim, rfz, x, g, extra)
+            gap = simulate(sim, rfz[k:], x, g[k:], extra)
+        ag, bg = compose(sim, ab1, gap)
+        e = float(max(np.max(np.abs(ag - whole[0])), np.max(np.abs(bg - whole[1]))))
+        checks += 1
+        obs["composition_rf_gap"] = e
+        if not e <= max(1e-11, utol * 10) * (1 + nt / 16):
+            return violated(sig, "%s: a pulse followed by an RF gap (zeros, gradient on) differs "
+                            "from composing the pulse with the simulated gap by %.3g (gap of %d "
+                            "samples)" % (sim, e, nt - k), wit, mech="composition-gap:" + sim,
+                            obs=obs)
+    if amp == "zero":
+        # continuity: an all-zero waveform is the limit of a vanishing one
+        tiny = 1e-30 if rf.dtype == np.complex64 else 1e-150
+        at, bt = simulate(sim, rf + rf.dtype.type(tiny), x, g, extra)
+        e = float(np.max(np.abs(at - a)))
+        checks += 1
+        obs["zero_limit"] = e
+        if not e <= 1e-12 + (1e-6 if rf.dtype == np.complex64 else 0):
+            return violated(sig, "%s: the all-zero pulse gives a rotation that differs by %.3g "
+                            "from the one of a vanishing (1e-150) pulse" % (sim, e), wit,
+                            mech="zero-limit:" + sim, obs=obs)
     return held(sig, obs, checks, True)
 
 
@@ -301,7 +338,8 @@ def run_slr(case):
     if case["kind"] == "dzrf":
         sig = "slr|dzrf|%s|%s" % (case["ptype"], case["ftype"])
     else:
-        sig = "slr|%s|n%d|p%.1f" % (case["kind"], min(n, 64), round(peak, 1))
+        sig = "slr|%s|n%d|p%s" % (case["kind"], min(n, 64), round(peak, 1) if peak >= 0.05
+                                  else "1e%d" % int(np.floor(np.log10(max(peak, 1e-300)))))
     wit = dict(case)
     b0 = b.copy()
     try:
@@ -331,9 +369,11 @@ def run_slr(case):
         checks += 1
         worst = max(worst, e)
         obs["roundtrip_" + name] = max(e, obs.get("roundtrip_" + name, 0.0))
-        if not e <= 1e-5:
+        # relative to the size of the response (small-tip designs: |B| << 1), observed
+        # on the unchanged tree: <= 3e-8 * max|B| at every scale
+        if not e <= 1e-5 * min(1.0, peak):
             return violated(sig, "simulating b2rf(b) with %s does not reproduce |B|: max "
-                            "deviation %.3g over 256 frequencies (max|B| = %.3f)" % (
+                            "deviation %.3g over 256 frequencies (max|B| = %.3g)" % (
                                 name, e, peak), wit, mech="slr-roundtrip", obs=obs)
     return held(sig, obs, checks, True)
 
